@@ -51,15 +51,15 @@ func (env *e2eEnv) middleware(spec mwSpec) frugal.ServiceMiddleware {
 
 func e2eHarness(rc *RunCtx) {
 	tp := rc.Tape
-	s := rc.NewSim(60000, 10*time.Minute)
+	s := rc.NewSim(rc.Scale(60000, 200000), 10*time.Minute)
 	env := &e2eEnv{rc: rc, s: s}
 	env.kind = []string{"adapter", "http", "nats"}[tp.Intn("cfg", 3)]
 	if k := rc.Params["transport"]; k != "" {
 		env.kind = k
 	}
 	env.proto = []string{"binary", "compact", "json"}[tp.Intn("cfg", 3)]
-	nCallers := 1 + tp.Intn("cfg", 4)
-	perCaller := 1 + tp.Intn("cfg", 4)
+	nCallers := 1 + tp.Intn("cfg", rc.Scale(4, 6))
+	perCaller := 1 + tp.Intn("cfg", rc.Scale(4, 7))
 	// JSON over the framed simple server is a recorded finding (D9): those
 	// runs are reduced to one probe call reported under one specific key
 	jsonFramed := env.kind == "adapter" && env.proto == "json"
